@@ -26,7 +26,8 @@ RULE = ("case = (generated program of the C01-C04/C08 families: function or DBC 
         "x {construction, method call, assignment}: cls.__invariants__ judged by hand vs. the real operation.")
 ASSUMPTIONS = ["invariant conditions are held true here so that the verdict of a call is decided by pre/postconditions",
                "contracts are identified through their description '#<id>'"]
-DECO_KW = dict(n_pre=(0, 3), n_post=(0, 3), n_snap=(0, 2), n_wraps=(0, 2), err_forms=("default", "instance", "class"))
+DECO_KW = dict(n_pre=(0, 3), n_post=(0, 3), n_snap=(0, 2), n_wraps=(0, 2),
+               err_forms=("default", "instance", "class", "lambda", "def"))
 HIER_KW = dict(n_classes=(1, 5), dag=True, with_invs=True, with_init=True, multi_root=True, async_ok=False)
 KNOWN = {}
 
@@ -188,7 +189,26 @@ def judge(ctx, case, truth, res, model):
             own = {d["cid"] for g in eff["pre"] for d in g} | {d["cid"] for d in eff["post"]}
             if c is not None and c not in own:
                 continue  # raised by a nested call (e.g. super().__init__()), not by this callable's lists
-            if role == "inv" or (c is None and not (qo[1][0] == "tok" and qo[1][1].startswith("exc:"))):
+            if role == "inv":
+                continue
+            if c is None and not (qo[1][0] == "tok" and qo[1][1].startswith("exc:")):
+                # neither a contract's error nor the body's own exception (e.g. a TypeError raised by the checker):
+                # no verdict over the lists explains it, unless evaluating them by hand fails in the same way
+                run = vrt.Run(truth=dict(truth))
+                V.begin(run)
+                try:
+                    try:
+                        manual_verdict(checker, kwargs, vrt.Tok("manual-result"))
+                        by_hand = "no error"
+                    except TypeError as e:
+                        by_hand = "TypeError"
+                finally:
+                    V.end()
+                if by_hand == "no error" and qo[1][0] == "typeerror":
+                    ctx.fail("manual-verdict|%s|%s|manual:evaluates|real:TypeError" % (op["op"], sig), case, D.describe(
+                        case, res, "op %d %r: the introspected lists evaluate by hand without an error, the real call "
+                                   "raised %r" % (i, op, qo[:2])))
+                    return
                 continue
             real_pre = role != "pre"
             real_post = None if (qo[1][0] == "tok" and qo[1][1].startswith("exc:")) else (role != "post")
